@@ -435,7 +435,8 @@ def defaultExprPool : List (Toks × ExprClass) :=
    (["unsafe", "{", "K", "}", "[", "0", "]"], .blockLead),
    (["{", "K", "}", ".", "f"], .blockLead), (["loop", "{", "}", ".", "await"], .blockLead), (["{", "K", "}", "=", "1"], .blockLead),
    (["while", "false", "{", "}", ".", "0", ".", "g", "(", ")"], .blockLead), (["for", "_", "in", "K", "{", "}", "as", "u8", "as", "u16"], .blockLead),
-   (["const", "{", "1", "}", "?", "?"], .blockLead), (["{", "K", "}", "(", ")"], .blockLead), (["{", "1", "}", "..", "2"], .blockLead), (["1", "+", "2"], .other), (["E", "::", "A"], .path), (["T", "::", "default", "(", ")"], .other),
+   (["const", "{", "1", "}", "?", "?"], .blockLead), (["one", "!", "{", "}", "+", "1"], .blockLead), (["m", "::", "mk", "!", "{", "K", "}", ".", "f"], .blockLead),
+   (["one", "!", "(", ")", "+", "1"], .other), (["one", "!", "{", "}"], .other), (["{", "K", "}", "(", ")"], .blockLead), (["{", "1", "}", "..", "2"], .blockLead), (["1", "+", "2"], .other), (["E", "::", "A"], .path), (["T", "::", "default", "(", ")"], .other),
    -- paths with generic arguments are paths; a parenthesized literal is not a literal
    (["Vec", "::", "<", "u8", ">", "::", "new"], .path), (["Foo", "::", "<", "{", "1", "}", ">", "::", "K"], .path),
    (["(", "\"s\"", ")"], .other), (["c\"cstr\""], .other), (["1.5e3"], .other), (["\"s\"", ".", "len", "(", ")"], .other)]
